@@ -8,7 +8,7 @@ import casadi as ca
 import mpmath as mp
 import z3
 
-from ..harness import Harness, Claim, HarnessError
+from ..harness import Harness, Claim, HarnessError, StructureChanged
 from ..val import Val
 from .. import val as V
 from ..enc import Ctx, Angle
@@ -54,7 +54,7 @@ class RateControl(Harness):
         f = rdd2().derive_attitude_rate_control()["attitude_rate_control"]
         names = [f.name_in(i) for i in range(f.n_in())]
         if names != ["kp", "ki", "kd", "f_cut", "i_max", "omega", "omega_r", "i0", "e0", "de0", "dt"]:
-            raise HarnessError(f"attitude_rate_control signature changed: {names}")
+            raise StructureChanged(f"attitude_rate_control signature changed: {names}")
         return f
 
     def make_ctx(self):
@@ -96,7 +96,7 @@ class InputVelocity(Harness):
     def build(self):
         f = rdd2().derive_input_velocity()["input_velocity"]
         if [f.name_out(i) for i in range(f.n_out())] != ["psi_sp1", "psi_vel_sp", "pw_sp1", "vw_sp", "aw_sp", "q_sp"]:
-            raise HarnessError("input_velocity outputs changed")
+            raise StructureChanged("input_velocity outputs changed")
         si = f.sx_in()
         so = f(*si)
         return ca.Function("input_velocity_sel", si, [so[0], so[1], so[2], so[3]])
@@ -187,10 +187,10 @@ class PositionSaturation(Harness):
         finally:
             casadi.norm_2 = orig
         if len(rec) < 2 or rec[0].shape != (3, 1) or rec[1].shape != (3, 1):
-            raise HarnessError("position_control: expected norm_2 of the feedback term and of the thrust vector")
+            raise StructureChanged("position_control: expected norm_2 of the feedback term and of the thrust vector")
         names = [f.name_in(i) for i in range(f.n_in())]
         if names != ["thrust_trim", "pt_w", "vt_w", "at_w", "qc_wb", "p_w", "v_w", "z_i", "dt"]:
-            raise HarnessError(f"position_control signature changed: {names}")
+            raise StructureChanged(f"position_control signature changed: {names}")
         si = f.sx_in()
         so = f(*si)
         return ca.Function("poscontrol_sel", si, [rec[1], so[2], so[0]])
@@ -245,7 +245,7 @@ class LawIsExpr(Harness):
         mod, der = LAWS[self.fname]
         f = getattr(mod(), der)()[self.fname]
         if [f.name_in(i) for i in range(f.n_in())] != ["kp", "q", "q_r"]:
-            raise HarnessError("attitude law signature changed")
+            raise StructureChanged("attitude law signature changed")
         kp, q, qr = ca.SX.sym("kp", 3), ca.SX.sym("q", 4), ca.SX.sym("qr", 4)
         return ca.Function("law_eq", [kp, q, qr], [f(kp, q, qr), law_expr(self.fname, kp, q, qr)])
 
@@ -402,7 +402,7 @@ class SE23ErrorIsExpr(Harness):
         import cyecca.lie as lie
         f = loglin().derive_se23_error()["se23_error"]
         if [f.name_in(i) for i in range(f.n_in())] != ["p_w", "v_w", "q_wb", "p_rw", "v_rw", "q_r"]:
-            raise HarnessError("se23_error signature changed")
+            raise StructureChanged("se23_error signature changed")
         x, xr = ca.SX.sym("x", 10), ca.SX.sym("xr", 10)
         z = f(x[0:3], x[3:6], x[6:10], xr[0:3], xr[3:6], xr[6:10])
         ref = (lie.SE23Quat.elem(x).inverse() * lie.SE23Quat.elem(xr)).log().param
